@@ -51,8 +51,9 @@ print(json.dumps(meta, indent=1))
 if ok:
     dst = f"/verif/seeded/{name}"
     os.makedirs(dst, exist_ok=True)
-    shutil.copy(f"{src}/patch.diff", dst)
-    shutil.copy(f"{src}/demo.rs", dst)
-    if os.path.exists(f"{src}/NOTES.md"):
-        shutil.copy(f"{src}/NOTES.md", dst)
+    if os.path.realpath(src) != os.path.realpath(dst):
+        shutil.copy(f"{src}/patch.diff", dst)
+        shutil.copy(f"{src}/demo.rs", dst)
+        if os.path.exists(f"{src}/NOTES.md"):
+            shutil.copy(f"{src}/NOTES.md", dst)
     json.dump(meta, open(f"{dst}/meta.json", "w"), indent=1)
